@@ -476,8 +476,9 @@ PROPS.update({
                      "Foyer.Hyb.disk_lookup_own_key_or_miss", "Foyer.Hyb.memory_hit_returns_memory",
                      "Foyer.Hyb.insAll_max",
                      "Foyer.Hyb.woi_stepCore", "Foyer.Hyb.woi_step", "Foyer.Hyb.woi_reads_truth",
-                     "Foyer.Hyb.woe_stepCore", "Foyer.Hyb.woe_step", "Foyer.Hyb.woe_reads_truth"],
-        "extra_modules": ["FoyerProofs.C01Woi", "FoyerProofs.C01Woe"],
+                     "Foyer.Hyb.woe_stepCore", "Foyer.Hyb.woe_step", "Foyer.Hyb.woe_reads_truth",
+                     "Foyer.Hyb.rb_stepCore", "Foyer.Hyb.reopen_view", "Foyer.Hyb.woi_reads_truth_reopen"],
+        "extra_modules": ["FoyerProofs.C01Woi", "FoyerProofs.C01Woe", "FoyerProofs.C01Reopen"],
         "monitor_props": ["C01"],
         "campaigns": {
             "quick": [{"name": "hyb-random", "args": ["cases=250", "maxops=25"]},
@@ -517,7 +518,9 @@ PROPS.update({
         "proof_module": "FoyerProofs.C15",
         "theorems": ["Foyer.Hyb.close_persists_flushed", "Foyer.Hyb.close_drains_queue",
                      "Foyer.Hyb.close_without_flush_submits_nothing", "Foyer.Hyb.reopen_index_is_recovery",
-                     "Foyer.Hyb.recovery_picks_latest"],
+                     "Foyer.Hyb.recovery_picks_latest", "Foyer.Hyb.recovery_complete", "Foyer.Hyb.rinv_restarted",
+                     "Foyer.Hyb.reopen_view", "Foyer.Hyb.woi_reads_truth_reopen"],
+        "extra_modules": ["FoyerProofs.C01Reopen"],
         "monitor_props": ["C15"],
         "campaigns": {
             "quick": [{"name": "hyb-reopen", "args": ["cases=250", "maxops=20", "reopen=1"]}],
